@@ -204,3 +204,20 @@ impl<V> DotBuilder for Arc<Route<V>> {
         Some(node_name)
     }
 }
+
+#[cfg(feature = "verif")]
+impl<T> Route<T> {
+    /// Whether one of the capture regexes of this route is compiled (verification hook)
+    pub fn verif_capture_compiled(&self) -> bool {
+        let host = match &self.host {
+            Some(StaticOrDynamic::Dynamic(marker_string)) => marker_string.verif_capture_compiled(),
+            _ => false,
+        };
+        let path = match &self.path_and_query {
+            StaticOrDynamic::Dynamic(marker_string) => marker_string.verif_capture_compiled(),
+            _ => false,
+        };
+
+        host || path
+    }
+}
